@@ -345,6 +345,7 @@ func (s *sim) teardown() {
 		n.cancel()
 	}
 	s.releaseWriters()
+	synctestWait() // callbacks that watch the context have gone before the others are released
 	// release parked application callbacks
 	for _, g := range s.parkedGates() {
 		s.release(g, -1)
@@ -389,7 +390,7 @@ func (s *sim) teardown() {
 	for len(s.evq) > 0 {
 		e := s.evq[0]
 		s.evq = s.evq[1:]
-		if len(e.tag) > 13 && (e.tag[:13] == "open-complete" || e.tag[:13] == "writer-takes ") {
+		if len(e.tag) > 13 && (e.tag[:13] == "open-complete" || e.writer) {
 			e.run()
 		}
 	}
